@@ -36,6 +36,7 @@ type c07World struct {
 	min    *big.Int
 	wallet *vlib.Identity
 	acct   store.Account
+	node   store.NodeID
 	trace  []string
 	// per-goroutine settle amounts (the handler runs in the caller's goroutine over Local)
 	paidMu sync.Mutex
@@ -49,6 +50,10 @@ func newC07World(driver string, fee feeCfg, minS string, walletIdx int) *c07Worl
 	}
 	cw := &c07World{w: w, fee: fee, wallet: vlib.NewIdentity("c07wallet", walletIdx), paidBy: map[int64]*big.Int{}}
 	cw.acct = store.Account(cw.wallet.Wallet)
+	// a host node whose earnings go to this wallet
+	cw.node = store.NodeID("c07node-" + cw.wallet.Name)
+	w.RawStore.SetNode(store.Node{ID: cw.node, IsHost: true, LastSeen: time.Now()})
+	w.RawStore.AddAccountNode(cw.acct, cw.node)
 	if fee.Fn != nil {
 		f := fee.Fn
 		// production style: the configured fee function may work in place
@@ -99,10 +104,14 @@ func c07Sequential(ev *vlib.Evidence, driver string, idx int, failAt int) {
 	defer cw.w.Close()
 	w := cw.w
 	attempts := 0
+	var duringSettle *big.Int // credited to the wallet's node while the settlement is in flight
 	w.SettleFn = func(e *vlib.SettleEvent) error {
 		attempts++
 		if attempts == failAt {
 			return errors.New("injected settlement failure")
+		}
+		if duringSettle != nil {
+			w.RawStore.AddNodeBalance(cw.node, duringSettle)
 		}
 		return nil
 	}
@@ -132,8 +141,21 @@ func c07Sequential(ev *vlib.Evidence, driver string, idx int, failAt int) {
 		before := cw.balance()
 		logBefore := len(w.SettleLog())
 		attemptsBefore := attempts
+		duringSettle = nil
+		if r.Intn(4) == 0 {
+			duringSettle = big.NewInt(int64(1 + r.Intn(100000)))
+		}
 		err := cw.withdraw()
 		after := cw.balance()
+		arrived := new(big.Int)
+		if duringSettle != nil && len(w.SettleLog()) > logBefore {
+			last := w.SettleLog()[len(w.SettleLog())-1]
+			if last.Err == "" {
+				arrived = duringSettle
+				owed.Add(owed, arrived)
+				cw.trace = append(cw.trace, "credit "+arrived.String()+" arrives while the settlement is in flight")
+			}
+		}
 		log := w.SettleLog()[logBefore:]
 		cw.trace = append(cw.trace, fmt.Sprintf("withdraw balance=%s -> err=%v settle-calls=%d balance-after=%s", before, err, len(log), after))
 		detail := func() map[string]interface{} { return map[string]interface{}{"trace": cw.trace, "index": idx} }
@@ -178,7 +200,7 @@ func c07Sequential(ev *vlib.Evidence, driver string, idx int, failAt int) {
 				return
 			}
 			fees.Add(fees, new(big.Int).Sub(before, want))
-			if after.Sign() != 0 {
+			if after.Cmp(arrived) != 0 {
 				d := detail()
 				d["left_after_withdrawal"] = after.String()
 				ev.Violate("sequential:balance-left-after-withdrawal", d)
@@ -221,6 +243,9 @@ func c07Model(cw *c07World) porcupine.Model {
 			if i.Kind == "accrue" {
 				return true, new(big.Int).Add(bal, mustBig(i.Amount)).String()
 			}
+			if i.Kind == "read" {
+				return o.Paid == bal.String(), st
+			}
 			meets := cw.min == nil || bal.Cmp(cw.min) >= 0
 			if o.Paid == "" {
 				if o.Refused && !o.NotVerify {
@@ -260,7 +285,7 @@ func c07Concurrent(ev *vlib.Evidence, driver string, idx int) {
 	w.RawStore.AddAccountBalance(cw.acct, initial)
 	owed := new(big.Int).Set(initial)
 	k := 2 + r.Intn(7)
-	accruers := r.Intn(3)
+	accruers := r.Intn(4)
 	var clock int64
 	var mu sync.Mutex
 	history := []porcupine.Operation{{ClientId: 0, Input: wIn{"accrue", initial.String()}, Call: 0, Output: wOut{}, Return: 0}}
@@ -298,7 +323,11 @@ func c07Concurrent(ev *vlib.Evidence, driver string, idx int) {
 			defer wg.Done()
 			<-start
 			call := atomic.AddInt64(&clock, 1)
-			w.RawStore.AddAccountBalance(cw.acct, amt)
+			if a%2 == 0 {
+				w.RawStore.AddNodeBalance(cw.node, amt) // earnings of a node linked to the wallet
+			} else {
+				w.RawStore.AddAccountBalance(cw.acct, amt)
+			}
 			ret := atomic.AddInt64(&clock, 1)
 			mu.Lock()
 			history = append(history, porcupine.Operation{ClientId: 100 + a, Input: wIn{"accrue", amt.String()}, Call: call, Output: wOut{}, Return: ret})
@@ -307,6 +336,8 @@ func c07Concurrent(ev *vlib.Evidence, driver string, idx int) {
 	}
 	close(start)
 	wg.Wait()
+	// a final read closes the history: what is left must be what the model says
+	history = append(history, porcupine.Operation{ClientId: 999, Input: wIn{Kind: "read"}, Call: atomic.AddInt64(&clock, 1), Output: wOut{Paid: cw.balance().String()}, Return: atomic.AddInt64(&clock, 1)})
 	desc := fmt.Sprintf("conc %s fee=%s min=%v withdrawals=%d accruers=%d initial=%s hold=%s", driver, cw.fee.Name, cw.min, k, accruers, initial, hold)
 	ev.Count("concurrent-withdrawals", int64(k))
 	log := w.SettleLog()
